@@ -316,7 +316,59 @@ def fam_multi(rng, pid):
     return b.prog(cfg)
 
 
-FAMILIES = {'basic': fam_basic, 'barrier': fam_barrier, 'ctl': fam_ctl, 'cancel': fam_cancel, 'batch': fam_batch,
+LIFE_OPS = ['Bind', 'Pause', 'PauseAndWait', 'Resume', 'Stop', 'WaitAndStop', 'Restart', 'TunePool', 'Add']
+
+
+def life_prog(pid, seq, ctx, expiry, conc, rng, cancel_at=None):
+    """one controller issuing the given sequence of lifecycle calls on an unbound worker, then a probe job"""
+    b = Builder(rng, 'life', pid)
+    ops, nq = [], 0
+    for i, o in enumerate(seq):
+        if cancel_at == i:
+            ops.append({'op': 'CancelCtx'})
+        if o == 'Bind':
+            ops.append({'op': 'Bind', 'kind': rng.choice(['fifo', 'prio'])})
+            nq += 1
+        elif o == 'TunePool':
+            ops.append({'op': 'TunePool', 'n': rng.choice([conc, conc + 1, 1, 2])})
+        elif o == 'Add':
+            if nq:
+                ops.append(b.add(rng.randrange(nq)))
+        else:
+            ops.append({'op': o})
+    if nq == 0:
+        ops.append({'op': 'Bind', 'kind': 'fifo'})
+        nq = 1
+    ops.append(b.add(0))
+    ops.append({'op': 'WStatus'})
+    b.client('ctl', ops)
+    cfg = {'wk': rng.choice(WKS), 'conc': conc, 'queues': [], 'nobind': True, 'ctx': ctx, 'expiry_us': expiry, 'errs_reader': rng.random() < 0.5}
+    p = b.prog(cfg)
+    p['outcome'] = {}
+    return p
+
+
+def fam_life(rng, pid):
+    n = rng.choice([2, 3, 4, 5, 6, 8])
+    seq = [rng.choice(LIFE_OPS) for _ in range(n)]
+    ctx = rng.random() < 0.4
+    return life_prog(pid, seq, ctx, rng.choice([0, 0, 300]), rng.choice([1, 2]), rng, cancel_at=rng.randrange(n + 1) if ctx and rng.random() < 0.5 else None)
+
+
+def life_exhaustive(maxlen, seed, prefix):
+    """every sequence of lifecycle calls up to maxlen, over the configurations"""
+    import itertools
+    rng = random.Random(seed)
+    out = []
+    for n in range(1, maxlen + 1):
+        for seq in itertools.product(LIFE_OPS[:-1], repeat=n):
+            ctx = rng.random() < 0.3
+            out.append(life_prog('%s%d' % (prefix, len(out) + 1), list(seq), ctx, rng.choice([0, 0, 300]), rng.choice([1, 2]), random.Random(rng.randrange(1 << 30)),
+                                 cancel_at=rng.randrange(n + 1) if ctx and rng.random() < 0.5 else None))
+    return out
+
+
+FAMILIES = {'life': fam_life, 'basic': fam_basic, 'barrier': fam_barrier, 'ctl': fam_ctl, 'cancel': fam_cancel, 'batch': fam_batch,
             'handle': fam_handle, 'pool': fam_pool, 'multi': fam_multi}
 
 
